@@ -120,12 +120,16 @@ func tupleFromArgs(callable bool, args px.List) *TupleType {
 			return tupleTypeEmpty
 		}
 		if callable {
-			return &TupleType{rng, rng, []px.Type{DefaultUnitType()}}
+			return &TupleType{rng, givenOrActualRng, []px.Type{DefaultUnitType()}}
 		}
-		if rng != nil && *rng == *IntegerTypePositive {
+		if rng == nil {
+			// an empty list of types and no size: Tuple[[]]
+			return tupleTypeEmpty
+		}
+		if *rng == *IntegerTypePositive {
 			return tupleTypeDefault
 		}
-		return &TupleType{rng, rng, []px.Type{}}
+		return &TupleType{rng, givenOrActualRng, []px.Type{}}
 	}
 
 	var tupleTypes []px.Type
